@@ -7,8 +7,9 @@ open Mutagen.Driver Mutagen.Model.CloseLadder
 Line: `<delay> <g1> <g2> <self> <onStdin> <onTerm> <killLatency> <holders> <R|N> = <observed>`
 (milliseconds; `-` for a reaction the agent does not have; `<holders>`: the
 standard streams — subset of `eoi`, `-` none — inherited by a descendant that
-outlives the agent; `R`: NewStream got a standard-error receiver). The two
-fields may be missing (older lines). Only the explorer's ladder steps matter
+outlives the agent; `R`: NewStream got a standard-error receiver; a further
+field `W`/`-`: a `Stream.Write` is blocked on the full input pipe when Close is
+called). The last three fields may be missing (older lines). Only the explorer's ladder steps matter
 for the outcome: by `holders_do_not_matter` the descendant's and the copier's
 steps change nothing Close can see. `<observed>` is the
 stage in which the real `Close` returned (`wait stdin term kill`). The model
@@ -24,15 +25,16 @@ def showStage : Stage → String
 
 def handle (line : String) : String :=
   match fields line with
-  | [d, g1, g2, self, onStdin, onTerm, kl, "=", obs] => go d g1 g2 self onStdin onTerm kl "-" "N" obs
-  | [d, g1, g2, self, onStdin, onTerm, kl, holders, r, "=", obs] => go d g1 g2 self onStdin onTerm kl holders r obs
+  | [d, g1, g2, self, onStdin, onTerm, kl, "=", obs] => go d g1 g2 self onStdin onTerm kl "-" "N" "-" obs
+  | [d, g1, g2, self, onStdin, onTerm, kl, holders, r, "=", obs] => go d g1 g2 self onStdin onTerm kl holders r "-" obs
+  | [d, g1, g2, self, onStdin, onTerm, kl, holders, r, w, "=", obs] => go d g1 g2 self onStdin onTerm kl holders r w obs
   | _ => "bad-line"
 where
-  go (d g1 g2 self onStdin onTerm kl holders r obs : String) : String :=
+  go (d g1 g2 self onStdin onTerm kl holders r w obs : String) : String :=
     match d.toNat?, g1.toNat?, g2.toNat?, optNat self, optNat onStdin, optNat onTerm, kl.toNat? with
     | some d, some g1, some g2, some self, some onStdin, some onTerm, some kl =>
-      if (r == "R" || r == "N") && (holders == "-" || holders.toList.all fun c => c == 'e' || c == 'o' || c == 'i') then
-        let p : Params := { delay := d, g1 := g1, g2 := g2, recv := r == "R" }
+      if (w == "W" || w == "-") && (r == "R" || r == "N") && (holders == "-" || holders.toList.all fun c => c == 'e' || c == 'o' || c == 'i') then
+        let p : Params := { delay := d, g1 := g1, g2 := g2, recv := r == "R", writer := w == "W" }
         let b : Behaviour := { self := self, onStdin := onStdin, onTerm := onTerm, killLatency := kl,
                                holder := holders.toList.contains 'e' }
         let stages := ((outcomes p b 64 (init p b)).map fun r => showStage r.1).eraseDups
